@@ -56,6 +56,8 @@ def main():
 
     # ---- 3. scenarios
     rng = random.Random(seed)
+    import shapes
+    shapes.reseed(seed)
     if replay:
         scens = P.from_replay(json.load(open(replay)))
     else:
